@@ -157,6 +157,9 @@ class mm_reader {
                 precondition(is >> n >> m >> nnz, format_error());
             }
 
+            precondition(!_symmetric || n == m,
+                    format_error("symmetric matrix is not square"));
+
             if (row_beg < 0) row_beg = 0;
             if (row_end < 0) row_end = n;
 
@@ -184,6 +187,13 @@ class mm_reader {
                 Val v;
 
                 precondition(is >> i >> j, format_error());
+
+                // Indices are one-based in the file and have to be checked
+                // before they are used as (or mirrored into) column numbers.
+                precondition(
+                        i >= 1 && static_cast<ptrdiff_t>(i) <= n &&
+                        j >= 1 && static_cast<ptrdiff_t>(j) <= m,
+                        format_error("index out of range"));
 
                 i -= 1;
                 j -= 1;
